@@ -61,7 +61,15 @@ type G struct {
 	unmanaged bool
 	atomic   int // >0: yields are skipped (harness instrumentation running on this goroutine)
 	steps    int
+	sinceParkYields int // soft yields passed without parking since the last park
 }
+
+// TickEvery: a goroutine that passes this many soft yields without parking is
+// parked anyway, so that a loop that never blocks cannot starve the simulator.
+const TickEvery = 3000
+
+// Heartbeat is incremented at every scheduling step (watchdog food).
+var Heartbeat atomic.Int64
 
 // Action is one thing the simulator may do next.
 type Action struct {
@@ -100,6 +108,9 @@ type Sim struct {
 	byID    map[string]*G
 	wake    chan struct{}
 	lastRun string
+	// LastWasTick: the goroutine released last had been parked by the tick (it
+	// had run TickEvery soft yields without blocking).
+	LastWasTick bool
 	dead    atomic.Bool
 
 	// Extra is called every step for scenario-level actions (ops, faults,
@@ -316,6 +327,11 @@ func Yield(site int) {
 		return
 	}
 	g.ctr++
+	g.sinceParkYields++
+	if g.sinceParkYields >= TickEvery {
+		s.park(g, nil, "tick", false)
+		return
+	}
 	if s.Cfg.YieldPermil <= 0 {
 		return
 	}
@@ -348,6 +364,7 @@ func (s *Sim) park(g *G, w *waiter, why string, hard bool) {
 		freeze()
 	}
 	mu.Lock()
+	g.sinceParkYields = 0
 	g.parked = true
 	g.wait = w
 	g.why = why
@@ -498,6 +515,7 @@ func (s *Sim) release(id string) {
 	g.parked = false
 	g.steps++
 	s.lastRun = id
+	s.LastWasTick = g.why == "tick"
 	mu.Unlock()
 	g.ch <- struct{}{}
 }
@@ -505,6 +523,7 @@ func (s *Sim) release(id string) {
 // Step performs one scheduling step. wait must be synctest.Wait. It returns
 // the key of the action taken, or "" if nothing at all is enabled (idle).
 func (s *Sim) Step(wait func()) string {
+	Heartbeat.Add(1)
 	wait()
 	acts := s.enabled()
 	if len(acts) == 0 {
